@@ -124,8 +124,33 @@ def _filter_leaves(e):
   return [astu.src(e)]
 
 
-@rule('C05.R3', 'K7', 4, 'inner scopes are mutable only for (outer mutable) AND (lifted out collections) AND (mutable_filter)')
-def r3(R, repo):
+def check_inner_variables_cloned(R, repo):
+  """The variable dicts handed to a lifted function's inner scope are a deep copy of the outer ones (shared by C01)."""
+  mod = repo.mod(LI)
+  sf = mod.func('_partial_pack.scope_fn')
+  key = key_of(sf, 'Scope(<deep copy of the lifted variables>, …)')
+  ctor = [x for x in astu.func_calls(sf) if astu.call_name(x) == 'Scope']
+  if len(ctor) != 1 or not ctor[0].args or isinstance(ctor[0].args[0], ast.Starred):
+    R.unsure(key, sf, 'Scope(variables, …) not found in scope_fn')
+    return
+  kind, src_, wit = evid.copy_depth(sf, ctor[0].args[0])
+  if kind == evid.DEEP:
+    R.ok(key, (sf, wit))
+  elif kind == evid.SHALLOW:
+    R.fail(key, (sf, wit), '`%s` copies only the outer level(s): the nested variable dicts stay shared with the outer scope, so a write made while tracing one lifted call / branch is visible in the others and in the caller\'s variables' % astu.short(wit))
+  else:
+    a = ctor[0].args[0]
+    ds = [d[0] for d in flow.defs(sf, a.id)] if isinstance(a, ast.Name) else []
+    fresh = [d for d in ds if isinstance(d, ast.Dict) and not d.keys or (isinstance(d, ast.Call) and astu.call_name(d) == 'dict' and not d.args and not d.keywords)]
+    upd = [x for x in astu.func_calls(sf) if isinstance(a, ast.Name) and astu.src(x.func) == a.id + '.update']
+    if ds and len(fresh) == len(ds) and upd:
+      R.fail(key, (sf, upd[0]), '`%s` is filled with the outer scope\'s own collection dicts and never cloned: the inner scope writes into the caller\'s variables by reference' % a.id)
+    else:
+      R.unsure(key, (sf, ctor[0]), 'cannot tell how `%s` is copied' % astu.short(a))
+
+
+def check_inner_mutability(R, repo):
+  """scope_mutable = intersect(scope.mutable, out filters, mutable_filter) and is what the inner Scope gets (shared by C01)."""
   mod = repo.mod(LI)
   sf = mod.func('_partial_pack.scope_fn')
   d = types.single_def(sf.node, 'scope_mutable')
@@ -138,6 +163,22 @@ def r3(R, repo):
     evid.judge_args(R, repo, sf, ctor[0], {'mutable': (None, {'scope_mutable'} | ({astu.src(d)} if d is not None else set()))}, key_of(sf, 'Scope(mutable=scope_mutable)'), 'the inner Scope must be created with mutable=scope_mutable')
   else:
     R.unsure(key_of(sf, 'Scope(mutable=scope_mutable)'), sf, 'Scope(...) not found in scope_fn')
+
+
+@rule('C05.R3', 'K7', 4, 'inner scopes are mutable only for (outer mutable) AND (lifted out collections) AND (mutable_filter)')
+def r3(R, repo):
+  mod = repo.mod(LI)
+  sf = mod.func('_partial_pack.scope_fn')
+  check_inner_mutability(R, repo)
+  _r3_rest(R, repo, mod, sf)
+
+
+@rule('C05.R11', 'K7', 1, 'the inner scope of a lifted transform works on a deep copy of the variable dicts')
+def r11(R, repo):
+  check_inner_variables_cloned(R, repo)
+
+
+def _r3_rest(R, repo, mod, sf):
   defs_m = [x for x in flow.defs(sf, 'mutable')]
   ok = len(defs_m) == 2 and any(astu.is_const(x[0], False) for x in defs_m if not isinstance(x[0], tuple)) and any(astu.src(x[0]) == 'union_filters(mutable, out_filter)' for x in defs_m if not isinstance(x[0], tuple))
   R.check(ok, key_of(sf, 'mutable = union of the out filters'), sf, '`mutable` must start at False and accumulate union_filters over out_variable_filters')
@@ -447,6 +488,58 @@ def r10(R, repo):
       R.check(astu.src(n.targets[0].elts[1]) != other, key, (w, n), '`%s` lets the throw-away initialisation pass overwrite `%s`, the non-mapped variable group handed to the real pass: every update to a non-mapped mutable collection is applied twice' % (astu.short(n), other), evidence=True)
   else:
     R.unsure(key, w, '`target, _ = repack(scopes)` not found in map_variables.wrapper')
+
+
+def _attr_reads(e):
+  return {(astu.src(n.value), n.attr) for n in ast.walk(e) if isinstance(n, ast.Attribute) and isinstance(n.ctx, ast.Load) and isinstance(n.value, ast.Name)}
+
+
+@rule('C05.R12', 'K4', 8, 'module bookkeeping crosses a transform boundary field by field: export reads self.F, reimport writes self.F from other.F')
+def r12(R, repo):
+  mod = repo.mod(MO)
+  ex, ri = mod.func('_ModuleInternalState.export'), mod.func('_ModuleInternalState.reimport')
+  ctor = [x for x in astu.func_calls(ex) if astu.call_name(x) == '_ModuleInternalState']
+  R.require(len(ctor) == 1 and not astu.has_star_kwargs(ctor[0]) and not ctor[0].args, 'export: _ModuleInternalState(field=...) constructor call not found')
+  exported = []
+  for k in ctor[0].keywords:
+    key = key_of(ex, 'export %s from self.%s' % (k.arg, k.arg))
+    reads = set()
+    for e in evid.expand(ex, k.value):
+      reads |= _attr_reads(e)
+    exported.append(k.arg)
+    if ('self', k.arg) in reads and all(b != 'self' or a == k.arg for b, a in reads):
+      R.ok(key, (ex, k.value))
+    elif reads and all(b == 'self' for b, a in reads) and ('self', k.arg) not in reads:
+      R.fail(key, (ex, k.value), 'export fills `%s` from `%s`: the transformed copy of the module would start from another field\'s value' % (k.arg, astu.short(k.value)))
+    else:
+      R.unsure(key, (ex, k.value), 'source of exported field `%s` not recognised' % k.arg)
+  op = astu.params(ri.node)
+  R.require(len(op) == 2, 'reimport(self, other) signature changed')
+  me, other = op
+  written = {}
+  for st in astu.body_walk(ri.node):
+    if isinstance(st, ast.Assign) and len(st.targets) == 1 and isinstance(st.targets[0], ast.Attribute) and astu.src(st.targets[0].value) == me:
+      written[st.targets[0].attr] = st
+  for fld, st in sorted(written.items()):
+    key = key_of(ri, 'reimport %s from other.%s' % (fld, fld))
+    reads = _attr_reads(st.value)
+    if reads == {(other, fld)}:
+      R.ok(key, (ri, st))
+    elif reads and all(b in (me, other) for b, a in reads):
+      R.fail(key, (ri, st), '`%s`: the field must be taken from `%s.%s` — the state changed inside the transform (e.g. the auto-name counters) would otherwise be lost and the next submodule would reuse a name' % (astu.short(st), other, fld))
+    else:
+      R.unsure(key, (ri, st), 'source of re-imported field `%s` not recognised' % fld)
+  only_assign = all(isinstance(st, (ast.Assign, ast.Expr, ast.Pass)) for st in ri.node.body)
+  for fld in exported:
+    if fld == 'setup_called':
+      continue  # deliberately one-way: the transformed copy only learns that setup already ran
+    key = key_of(ri, 'exported field %s is re-imported' % fld)
+    if fld in written:
+      R.ok(key, (ri, written[fld]))
+    elif only_assign and written:
+      R.fail(key, ri, 'field `%s` is exported into the transformed copy but never re-imported: its value after the transformed call is dropped' % fld)
+    else:
+      R.unsure(key, ri, 're-import of `%s` not recognised' % fld)
 
 
 @rule('C05.R9', 'K8', 16, 'collection filters used by the lifting machinery are exact (in_filter is membership)')
